@@ -7,10 +7,10 @@
    below 2 * 1200.  An f32 operation whose exact result is x yields [round24 x] (round to
    nearest even at 24 significant bits; scale-free for power-of-two units).
 
-   Oracle: the cubic / Reno-friendly curve of [congestion_avoidance] and the f32 rescale of
-   [on_mtu_update] are not computed; each step takes an answer [a] (the implementation's own
-   window after that step, fed back by the harness) which the model uses at those two sites
-   only, after applying the clamps the code applies itself. *)
+   Oracle: the cubic / Reno-friendly curve of [congestion_avoidance] is not computed; each step
+   takes an answer [a] (the implementation's own window after that step, fed back by the
+   harness) which the model uses at that site only, after applying the clamps the code applies
+   itself.  Everything else, including the f32 rescale of [on_mtu_update], is computed. *)
 From SQ Require Import lib.Base gen.Gen_C10.
 Local Open Scope N_scope.
 
@@ -30,6 +30,14 @@ Definition fx_of_int (n : N) : N := FX * round24 n.
 
 (* `x as u32` for a non-negative f32 in FX units (truncation, saturating) *)
 Definition to_u32 (x : N) : N := N.min (x / FX) u32_max.
+
+(* (x / old as f32) * new as f32 for an f32 x (any power-of-two unit) and integers old, new < 2^24:
+   the quotient is formed with 40 extra bits and a sticky bit, so that [round24] sees the exact
+   rounding position; the result is the floor in x's unit *)
+Definition fdivmul (x old new : N) : N :=
+  let n := x * 2 ^ 40 in
+  let q := round24 (2 * (n / old) + (if n mod old =? 0 then 0 else 1)) in
+  round24 (q * new) / 2 ^ 41.
 
 Inductive ckind := SlowStart | Recovery (start : N) (req : bool) | CongAvoid.
 
@@ -174,7 +182,7 @@ Definition step (s : cstate) (o : op) (a : N) : option cstate :=
       else Some s1
   | Ecn now => Some (congestion_event s now)
   | Mtu m =>
-      Some {| mds := m; mds0 := mds0 s; cwnd := fx_of_int (N.max (to_u32 a) (initial_window m));
+      Some {| mds := m; mds0 := mds0 s; cwnd := fx_of_int (N.max (to_u32 (fdivmul (cwnd s) (mds s) m)) (initial_window m));
               bif := bif s; bif_hi := bif_hi s; kind := kind s; uu := uu s; thr := thr s |}
   | Discard bytes =>
       if bif s <? bytes then None else Some (clear_req (set_bif s (bif s - bytes)))
